@@ -173,9 +173,11 @@ impl ZMap {
     { unimplemented!() }
     // plausible foreign calls: accepted, nothing promised
     #[verifier::external_body]
-    pub fn first_key(&self) -> u32 { unimplemented!() }
+    pub fn first_key_value(&self) -> Option<(&u32, &ZoomValue)> { unimplemented!() }
     #[verifier::external_body]
-    pub fn first_value_mut(&mut self) -> Option<&mut ZoomValue> { unimplemented!() }
+    pub fn last_key_value(&self) -> Option<(&u32, &ZoomValue)> { unimplemented!() }
+    #[verifier::external_body]
+    pub fn contains_key(&self, k: &u32) -> bool { unimplemented!() }
     #[verifier::external_body]
     pub fn len(&self) -> usize { unimplemented!() }
 }
@@ -337,6 +339,7 @@ fn write_chroms_without_zooms(
     
         proof {
             i = i + 1;
+            
             assert(file.bytes() =~= f0 + cat_data0(q, i));
         }
 }
@@ -469,7 +472,9 @@ fn write_chroms_with_zooms(
             buf.switch(writer);
         
             proof {
+                
                 assert(zooms_map@.dom() =~= dom);
+                
                 assert forall|x: u32| dom.contains(x) implies (#[trigger] zooms_map@[x]).0 == zm1[x].0 && zooms_map@[x].1 == zm1[x].1
                     && zooms_map@[x].2 == (if zidx(zs, x) < j__ + 1 { None::<ZoomWriter> } else { zm1[x].2 }) by {
                     if x != zs[j__ as int].resolution {
@@ -494,6 +499,7 @@ fn write_chroms_with_zooms(
         proof {
             zl = zooms@;
             jj = 0;
+            
             assert(file.bytes() =~= f0 + cat_data(q, i + 1));
         }
         let mut src__ = zooms; while src__.len() > 0 
@@ -540,7 +546,9 @@ fn write_chroms_with_zooms(
             zoom.2.replace(data.await_real_file(Ghost(done__)));
         
             proof {
+                
                 assert(zooms_map@.dom() =~= dom);
+                
                 assert forall|x: u32| dom.contains(x) implies (#[trigger] zooms_map@[x]).1 == zm1[x].1
                     && (if zidx(zs, x) < jj + 1 {
                             zooms_map@[x].0@ == zm1[x].0@.push(iter_of(zs[zidx(zs, x)].sections))
@@ -558,6 +566,7 @@ fn write_chroms_with_zooms(
 }
     
         proof {
+            
             assert forall|x: u32| dom.contains(x) implies level_after(#[trigger] zooms_map@[x], zm0[x], q, i + 1, x) by {
                 assert(level_after(zm1[x], zm0[x], q, i, x));
                 assert(zinfo(q[i], x) == zs[zidx(zs, x)]);
